@@ -441,6 +441,19 @@ func runC05R4to6(c *core.Ctx, e *ev) {
 		return core.Continue
 	}, nil)
 	c.Check(tgt == nil, "R6", "read-loop/tests-context", p.InstrPos(readInstr), "every iteration of the read loop observes the channel context", "the read loop can iterate without observing the channel context (does not terminate after Close / Shutdown)", p.PathString(path, tgt)...)
+	// ... and the context is observed between the active delivery and the first read (a channel whose
+	// context was cancelled while it was being set up must not park in its first transport read)
+	c.Instance("R6")
+	tgt, path = core.Search(actInstr, nil, func(x ssa.Instruction) core.Action {
+		if ctxObs(x) {
+			return core.Barrier
+		}
+		if x == readInstr {
+			return core.Target
+		}
+		return core.Continue
+	}, nil)
+	c.Check(tgt == nil, "R6", "read-loop/tests-context-before-first-read", p.InstrPos(readInstr), "the channel context is observed after activation and before the first read", "the first transport read is issued without observing the channel context after activation: a channel cancelled while being set up (Shutdown between accept and activation) parks in Read and is never closed", p.PathString(path, tgt)...)
 	// loop exit on context done leads to return (and thus to the deferred Close)
 	e.checkFatalNetErrorClose(c, "R6")
 }
